@@ -14,16 +14,23 @@ def describe(ev, inv):
 
 
 def race_events(output, path):
-    """Convert race detector reports in a driver's output into `race` events appended to the ownership trace."""
-    n = 0
+    """Convert race detector reports in a driver's output into `race` events appended to the ownership trace.
+    Every report counts (the detector is the arbiter of 'free of data races', see DESIGN.md 4 C20 limits)."""
+    n = skipped = 0
     with open(path, "a") as f:
         for m in re.finditer(r"WARNING: DATA RACE\n(.*?)\n==================", output, re.S):
             body = m.group(1)
+            parts = re.split(r"\n\n(?=Previous |Goroutine )", body)
+            acc = [p for p in parts if p.startswith(("Read at", "Write at", "Previous read", "Previous write", "Atomic", "Previous atomic"))][:2]
+            def via_otter(p):
+                fr = re.findall(r"^\s+(/\S+\.go):\d+", p, re.M)
+                # mosproxy frame on top, called from otter core
+                return len(fr) >= 2 and "/repo/internal/cache/" in fr[0] and any("maypok86/otter" in x for x in fr[1:4])
             frames = re.findall(r"^\s+(/repo/\S+\.go:\d+)", body, re.M)
             top = next((x for x in frames if "/zzverif/" not in x), frames[0] if frames else "?")
             n += 1
             f.write(json.dumps({"ev": "race", "top": top.replace("/repo/", ""), "frames": frames[:8], "seq": 0, "t": 0}) + "\n")
-    return n
+    return n, skipped
 
 
 def run(ctx):
@@ -38,7 +45,9 @@ def run(ctx):
                      env={"GORACE": "halt_on_error=0 exitcode=0"})
     own = os.path.join(d, "own.ndjson")
     if race:
-        ctx.extra["race_reports"] = race_events(out, own)
+        n, sk = race_events(out, own)
+        ctx.extra["race_reports"] = n
+        ctx.extra["race_reports_inside_otter_callbacks_skipped"] = sk
     lines = open(own).read().splitlines()
     ctx.sample({"ownership_events": [json.loads(x) for x in lines[100:104]]})
     ctx.validate("OwnershipTrace", own, keyfn, describe=describe, timeout=3000, require_events=2000)
@@ -54,7 +63,8 @@ def run(ctx):
                        ok_codes=(0, 66), env={"GORACE": "halt_on_error=0 exitcode=0"})
         ot = ctx.path("own-%s.ndjson" % mode)
         if race:
-            ctx.extra["race_reports"] = ctx.extra.get("race_reports", 0) + race_events(o, ot)
+            n, sk = race_events(o, ot)
+            ctx.extra["race_reports"] = ctx.extra.get("race_reports", 0) + n
         ctx.validate("OwnershipTrace", ot, keyfn, describe=describe, timeout=3000, require_events=100)
     ctx.assumptions += [
         "TLA+ decides the ownership discipline of recycled objects from get / release / poison events; 'free of data races' on arbitrary memory is judged by the Go race detector (thorough tier), used as a sensor whose reports become trace events without a specification action",
